@@ -29,8 +29,13 @@ TAGS = {
     21: 'write/read cycle: column names changed', 22: 'write/read cycle: number of rows changed',
     23: 'write/read cycle: a value changed', 24: 'write/read cycle: writing or re-reading failed',
     25: 'update_input ($INPUT generated for the new dataset) differs from the model',
+    26: 'the written $DATA record re-applies an IGNORE/ACCEPT list to data written from the already filtered dataset',
+    27: 'the written $DATA record differs from the model of update_source',
+    28: 'the file named by the written $DATA record differs from the model of write_files',
 }
-CYCLE_GUARDS = {218: ('g_no_anon', 'finding', 'C13-CYCLE-ANON-DROP'), 219: ('g_no_same_dropped', 'class', None)}
+CYCLE_GUARDS = {218: ('g_no_anon', 'finding', 'C13-CYCLE-ANON-DROP'), 219: ('g_no_same_dropped', 'class', None),
+                220: ('g_renamed', 'finding', 'C13-CYCLE-STALE-PATH')}
+CYCLE_CORR = (25, 27, 28)
 CORR = (1, 2, 3, 4)
 # guard tag -> (conjunct name, kind, finding id)
 GUARDS = {
@@ -353,9 +358,9 @@ def input_term(spec, path, mod=None):
     return term, code, info
 
 
-def input_term_from_code(code, text):
+def parse_records(code):
+    """The REAL parsed $INPUT options and $DATA tokens (IGNORE=c token, NULL char, filter tokens) of a control stream."""
     from pharmpy.model.external.nonmem.nmtran_parser import NMTranParser
-    import pharmpy
     try:
         cs = NMTranParser().parse(code)
         inp = cs.get_records('INPUT')
@@ -381,6 +386,7 @@ def input_term_from_code(code, text):
                     raise Skip('filter shape')
                 out.append((col, op, ex))
             filts[which] = out
+        filename = dr.filename
     except Skip:
         raise
     except Exception as e:
@@ -389,13 +395,30 @@ def input_term_from_code(code, text):
         raise Skip('several IGNORE=c options')
     if nullc is not None and len(nullc) != 1:
         raise Skip('null character of length != 1')
+    return opts, ignc, nullc, filts, filename
+
+
+def filt_term(f):
+    return f"(mkFilt {s_term(f[0])} {ct.opt(None if f[1] is None else s_term(f[1]))} {s_term(f[2])})"
+
+
+def data_term(code):
+    """$DATA of a control stream as a Check.data_opts term."""
+    _, ignc, nullc, filts, _ = parse_records(code)
+    return ("(mkData " + ct.opt(None if ignc is None else s_term(ignc)) + " "
+            + ct.opt(None if nullc is None else f'{ord(nullc)}%N') + " "
+            + ct.lst([filt_term(f) for f in filts['ignore']]) + " " + ct.lst([filt_term(f) for f in filts['accept']]) + ")")
+
+
+def input_term_from_code(code, text):
+    import pharmpy
+    opts, ignc, nullc, filts, _ = parse_records(code)
     mdt = str(pharmpy.conf.missing_data_token)
-    ft = lambda f: f"(mkFilt {s_term(f[0])} {ct.opt(None if f[1] is None else s_term(f[1]))} {s_term(f[2])})"
     term = ("(mkInput " + s_term(text) + "\n  "
             + ct.lst([ct.pair(s_term(k), ct.opt(None if v is None else s_term(v))) for k, v in opts]) + "\n  "
             + ct.opt(None if ignc is None else s_term(ignc)) + " "
             + ct.opt(None if nullc is None else f'{ord(nullc)}%N') + "\n  "
-            + ct.lst([ft(f) for f in filts['ignore']]) + " " + ct.lst([ft(f) for f in filts['accept']]) + " "
+            + ct.lst([filt_term(f) for f in filts['ignore']]) + " " + ct.lst([filt_term(f) for f in filts['accept']]) + " "
             + s_term(mdt) + ")")
     info = {'ncols': len(opts), 'nfilters': len(filts['ignore']) + len(filts['accept']), 'ignc': ignc, 'nullc': nullc}
     return term, info
@@ -471,68 +494,163 @@ def gen_cycle_spec(rng):
                     row.append([num, den, e] if rng.random() > 0.04 else None)      # None = missing value
             rows.append(row)
     first = rng.choice(['ID', 'ID', 'ID', 'SUBJ', 'Id', 'L1'])
-    return {'names': names, 'rows': rows, 'start': rng.choice(['plain', 'plain', 'wide', 'filters', 'drop', 'anon']), 'first_label': first}
+    spec = {'names': names, 'rows': rows, 'start': rng.choice(['plain', 'plain', 'wide', 'filters', 'drop', 'anon']),
+            'first_label': first, 'route': 'replace'}
+    if rng.random() < 0.6:               # a start model WITH IGNORE/ACCEPT lists, written without replacing the dataset
+        spec = dict(gen_filtered_start(rng), route=rng.choice(['write_csv', 'write_csv', 'plain', 'write_csv_noforce', 'replace_same']))
+    return spec
+
+
+FLAG_TOKENS = ['1', '1', '1.0', '01', '0', '2', '1e0', '.', '1.5', '+1']
+TEXT_OPS = ['.EQ.', '==', '=', '.NE.', '/=', None]
+NUM_OPS = ['.EQN.', '.NEN.', '.LT.', '<', '.GT.', '>', '.LE.', '<=', '.GE.', '>=']
+
+
+def gen_filtered_start(rng):
+    """A start model with text and numeric IGNORE/ACCEPT statements on values that print differently as floats."""
+    cols = ['ID', 'TIME', 'DV', 'FLAG']
+    inp = ['ID', 'TIME', 'DV', 'FLAG']
+    grp = rng.random() < 0.4
+    if grp:
+        cols.append('GRP')
+        inp.append(rng.choice(['GRP=DROP', 'DROP=GRP']))
+    if rng.random() < 0.25:
+        inp[2] = rng.choice(['DV=CONC', 'CONC=DV'])
+    lines = []
+    ident = 1
+    for _ in range(rng.choice([2, 3, 4, 5, 6])):
+        row = [str(ident), rng.choice(['0', '1', '2.5', '10']), rng.choice(['1', '2.5', '0.5', '3', '1d1', '.']), rng.choice(FLAG_TOKENS)]
+        if grp:
+            row.append(rng.choice(['a', 'b', '1', '1.0']))
+        lines.append(rng.choice([',', ',', ' ', '\t']).join(row))
+        if rng.random() < 0.5:
+            ident += 1
+    ignc = rng.choice([None, None, '#', '@', 'C'])
+    text = ''
+    if ignc == '@':
+        text += 'ID TIME DV FLAG\n'
+    elif ignc:
+        text += ignc + ' header\n'
+    elif rng.random() < 0.3:
+        text += '#comment\n'
+    text += '\n'.join(lines) + '\n'
+    kind = rng.choice(['IGNORE', 'IGNORE', 'ACCEPT'])
+    filters = []
+    for _ in range(rng.choice([1, 1, 2])):
+        col = rng.choice(['FLAG', 'FLAG', 'FLAG', 'ID', 'DV'] + (['GRP'] if grp else []))
+        if col == 'DV' and inp[2] != 'DV' and rng.random() < 0.5:
+            col = 'CONC'
+        if col == 'GRP' or rng.random() < 0.55:
+            op = rng.choice(TEXT_OPS)
+            e = rng.choice(['1', '1', '1.0', '01', '0', '2', 'a'])
+            if rng.random() < 0.2:
+                e = rng.choice(["'%s'", '"%s"']) % e
+            f = f'{col} {e}' if op is None else f'{col}{op}{e}'
+        else:
+            f = f"{col}{rng.choice(NUM_OPS)}{rng.choice(['1', '0', '2', '1.5', '0.5', '3'])}"
+        filters.append(f)
+    opts = []
+    if ignc:
+        opts.append(f'IGNORE={ignc}')
+    if rng.random() < 0.25:
+        opts.append('NULL=' + rng.choice('179'))
+    opts.append(f'{kind}=(' + ','.join(filters) + ')' if rng.random() < 0.6 else ' '.join(f'{kind}=({f})' for f in filters))
+    rng.shuffle(opts)
+    return {'start_input': ' '.join(inp), 'start_text': text, 'start_opts': ' '.join(opts)}
 
 
 def cycle_observe(spec, workdir, idx):
-    import numpy as np
     import pandas as pd
-    from pharmpy.modeling import read_model, read_model_from_string, set_dataset, write_model
+    from pharmpy.modeling import read_model, read_model_from_string, set_dataset, write_csv, write_model
     d = Path(workdir) / f'cyc{idx}'
     d.mkdir(parents=True, exist_ok=True)
-    names = list(spec['names'])
-    names[0] = spec.get('first_label', names[0])
-
-    def val(x):
-        if x is None:
-            return float('nan')
-        if isinstance(x, int):
-            return float(x)
-        num, den, e = x
-        return float(F(num, den) * F(2) ** e)
-    data = {nm: [val(r[j]) for r in spec['rows']] for j, nm in enumerate(names)}
-    df = pd.DataFrame(data)
-    if 'ID' in df.columns:
-        df['ID'] = df['ID'].astype('int32')
-    if 'DVID' in df.columns:
-        df['DVID'] = df['DVID'].astype('int32')
+    for f in d.glob('*'):
+        if f.is_file():
+            f.unlink()
+    route = spec.get('route', 'replace')
     start = d / 'start.csv'
-    kind = spec.get('start', 'plain')
-    if kind == 'wide':                     # the original $INPUT has more columns than the new dataset
-        start.write_text('1,0,1,70,5,2\n1,1,2,70,5,3\n')
-        code = f"$PROBLEM c13\n$INPUT ID TIME DV WGT APGR X1\n$DATA {start}\n" + CODE_TAIL
-    elif kind == 'filters':                # IGNORE=c, filters and a synonym to be replaced
-        start.write_text('#h\n1,0,1\n1,1,2\n7,1,2\n')
-        code = f"$PROBLEM c13\n$INPUT ID TIME DV=CONC\n$DATA {start} IGNORE=# IGNORE=(ID.EQ.1)\n" + CODE_TAIL
-    elif kind == 'drop':                   # dropped and anonymous columns in the original $INPUT
-        start.write_text('1,x,1,9\n1,y,2,9\n')
-        code = f"$PROBLEM c13\n$INPUT ID SEX=DROP DV DROP\n$DATA {start}\n" + CODE_TAIL
-    elif kind == 'anon':                   # an anonymous DROP where the new dataset has a column
-        start.write_text('1,0,1\n1,1,2\n')
-        code = f"$PROBLEM c13\n$INPUT ID DROP DV\n$DATA {start}\n" + CODE_TAIL
+    df = None
+    if 'start_input' in spec:              # generated start model with IGNORE/ACCEPT lists
+        kind = 'generated'
+        start.write_bytes(spec['start_text'].encode('latin-1'))
+        code = f"$PROBLEM c13\n$INPUT {spec['start_input']}\n$DATA {start} {spec['start_opts']}\n" + CODE_TAIL
     else:
-        start.write_text('1,0,1\n1,1,2\n')
-        code = f"$PROBLEM c13\n$INPUT ID TIME DV\n$DATA {start}\n" + CODE_TAIL
+        names = list(spec['names'])
+        names[0] = spec.get('first_label', names[0])
+
+        def val(x):
+            if x is None:
+                return float('nan')
+            if isinstance(x, int):
+                return float(x)
+            num, den, e = x
+            return float(F(num, den) * F(2) ** e)
+        data = {nm: [val(r[j]) for r in spec['rows']] for j, nm in enumerate(names)}
+        df = pd.DataFrame(data)
+        if 'ID' in df.columns:
+            df['ID'] = df['ID'].astype('int32')
+        if 'DVID' in df.columns:
+            df['DVID'] = df['DVID'].astype('int32')
+        kind = spec.get('start', 'plain')
+        if kind == 'wide':                     # the original $INPUT has more columns than the new dataset
+            start.write_text('1,0,1,70,5,2\n1,1,2,70,5,3\n')
+            code = f"$PROBLEM c13\n$INPUT ID TIME DV WGT APGR X1\n$DATA {start}\n" + CODE_TAIL
+        elif kind == 'filters':                # IGNORE=c, filters and a synonym to be replaced
+            start.write_text('#h\n1,0,1\n1,1,2\n7,1,2\n')
+            code = f"$PROBLEM c13\n$INPUT ID TIME DV=CONC\n$DATA {start} IGNORE=# IGNORE=(ID.EQ.1)\n" + CODE_TAIL
+        elif kind == 'drop':                   # dropped and anonymous columns in the original $INPUT
+            start.write_text('1,x,1,9\n1,y,2,9\n')
+            code = f"$PROBLEM c13\n$INPUT ID SEX=DROP DV DROP\n$DATA {start}\n" + CODE_TAIL
+        elif kind == 'anon':                   # an anonymous DROP where the new dataset has a column
+            start.write_text('1,0,1\n1,1,2\n')
+            code = f"$PROBLEM c13\n$INPUT ID DROP DV\n$DATA {start}\n" + CODE_TAIL
+        else:
+            start.write_text('1,0,1\n1,1,2\n')
+            code = f"$PROBLEM c13\n$INPUT ID TIME DV\n$DATA {start}\n" + CODE_TAIL
     with warnings.catch_warnings():
         warnings.simplefilter('ignore')
         try:
             m = read_model_from_string(code)
-            m2 = set_dataset(m, df, datatype='nonmem')
-            target = d / 'out.mod'
-            write_model(m2, target, force=True)
+        except Exception as e:
+            raise Skip('start model does not read: ' + type(e).__name__)
+        if m.dataset is None or len(m.dataset) == 0:
+            raise Skip('empty in-memory dataset')
+        target = d / 'out.mod'
+        changed, updated, force = True, False, True
+        try:
+            if route == 'replace':                 # a new dataset
+                m2 = set_dataset(m, df, datatype='nonmem')
+                updated = True
+            elif route == 'replace_same':          # the in-memory dataset set again (content route)
+                m2 = set_dataset(m, m.dataset.copy(), datatype='nonmem')
+                updated = True
+            elif route == 'write_csv':             # write_csv to a new path, then write_model
+                m2 = write_csv(m, path=d / 'new.csv', force=True)
+            elif route == 'write_csv_noforce':
+                m2 = write_csv(m, path=d / 'new.csv', force=True)
+                force = False
+            else:                                  # plain write_model
+                m2 = m
+                changed = False
+            mem = m2.dataset
+            write_model(m2, target, force=force)
+            written = target.read_text()
             m3 = read_model(target)
             df3 = m3.dataset
-            before = table_term(df)
+            before = table_term(mem)
             after = table_term(df3)
             # the files pharmpy wrote, as an ordinary read case for the model / reference reader
-            in_term, _ = input_term_from_code(target.read_text(), m3.datainfo.path.read_text())
+            in_term, _ = input_term_from_code(written, m3.datainfo.path.read_bytes().decode('latin-1'))
             readcase = f'(mkCase {in_term}\n  {after})'
-            optsterm = ' '.join([opts_term(code), newcols_term(m2), opts_term(target.read_text())])
+            renamed_obs = Path(m3.datainfo.path).resolve() != start.resolve()
+            extra = ' '.join([opts_term(code), newcols_term(m2), opts_term(written), ct.boolean(changed), ct.boolean(updated),
+                              ct.boolean(force), ct.boolean(renamed_obs), data_term(code), data_term(written)])
         except Skip:
             raise
         except Exception as e:
-            return f'(mkCycle (Ok []) {err_term(e)} [] [] [])', None, {'error': type(e).__name__ + ': ' + str(e)[:200]}
-    return f'(mkCycle {before} {after} {optsterm})', readcase, {'rows': len(df), 'cols': len(names), 'start': kind}
+            return (f'(mkCycle (Ok []) {err_term(e)} [] [] [] true true true true (mkData None None [] []) (mkData None None [] []))',
+                    None, {'error': type(e).__name__ + ': ' + str(e)[:200], 'route': route, 'start': kind})
+    return f'(mkCycle {before} {after} {extra})', readcase, {'rows': len(mem), 'cols': len(mem.columns), 'start': kind, 'route': route}
 
 
 # ------------------------------------------------------------------ classification
@@ -564,21 +682,23 @@ def classify(ctx, spec, tags):
 
 def classify_cycle(ctx, spec, tags, info):
     tags = set(tags)
-    prop = sorted(t for t in tags if t in (21, 22, 23, 24))
+    prop = sorted(t for t in tags if t in (21, 22, 23, 24, 26))
     gfalse = [t for t in tags if t in CYCLE_GUARDS]
+    corr = [t for t in tags if t in CYCLE_CORR]
     if prop:
         open_f = [CYCLE_GUARDS[t][2] for t in gfalse if CYCLE_GUARDS[t][1] == 'finding' and ctx.open_finding(CYCLE_GUARDS[t][2])]
-        if 25 not in tags and open_f:
+        if not corr and open_f:
             for fid in open_f:
                 ctx.coverage.setdefault('known_hits', {}).setdefault(fid, 0)
                 ctx.coverage['known_hits'][fid] += 1
             return 'known'
-        if 25 not in tags and gfalse and all(CYCLE_GUARDS[t][1] == 'class' for t in gfalse):
+        if not corr and gfalse and all(CYCLE_GUARDS[t][1] == 'class' for t in gfalse):
             return 'outside_class'
         ctx.violation(TAGS[prop[0]], {'cycle_spec': spec, 'tags': sorted(tags), 'info': info})
         return 'violation'
-    if 25 in tags:
-        ctx.broken.append('correspondence C13 update_input model vs implementation on ' + json.dumps(spec)[:400])
+    if corr:
+        ctx.broken.append('correspondence C13 update_source/update_input model vs implementation (' +
+                          ', '.join(TAGS[t] for t in corr) + ') on ' + json.dumps(spec)[:400])
         return 'broken'
     return 'ok'
 
@@ -607,7 +727,7 @@ def finding_probes(ctx):
         if 'cycle_spec' in f['witness']:
             term, _, _ = cycle_observe(f['witness']['cycle_spec'], ctx.rundir / 'cycle-finding', 0)
             tags = set(ctx.run_cases('finding-' + f['id'], IMPORTS, 'cycle_case', [term], 'cycle_verdict')[0])
-            if {f['expect_tag'], f['guard_tag']} <= tags and 25 not in tags:
+            if {f['expect_tag'], f['guard_tag']} <= tags and not (tags & set(CYCLE_CORR)):
                 ctx.known(f['id'])
             else:
                 ctx.notes.append(f"finding_not_reproduced {f['id']} (tags {sorted(tags)})")
@@ -641,6 +761,11 @@ def run_cycles(ctx, n):
         cstats[st] = cstats.get(st, 0) + 1
         bad += st == 'violation'
     ctx.coverage['cycle_status'] = cstats
+    routes = {}
+    for i in infos:
+        key = f"{i.get('route')}/{i.get('start')}"
+        routes[key] = routes.get(key, 0) + 1
+    ctx.coverage['cycle_routes'] = routes
     # the written csv + generated $INPUT/$DATA through the model and the reference reader: ties the printer
     # hypothesis of write_read_cycle (clean tokens that read back) to the real to_csv output
     rc = [(s, t) for s, t in zip(kept, readcases) if t is not None]
@@ -654,8 +779,9 @@ def run_cycles(ctx, n):
     ctx.coverage['cycle_read_cases'] = {'cases': len(rc), 'failed': rbad,
                                         'guard_true': sum(1 for v in rverdicts if not any(t in GUARDS for t in v))}
     ctx.coverage['cycle'] = {'cases': len(kept), 'failed': bad,
-                             'rule': 'numeric DataFrames with integer ID, values m/2^k * 2^e (small and arbitrary 53-bit m) and NaN; set_dataset + '
-                                     'write_model + read_model; compared exactly inside Coq'}
+                             'rule': 'start models without and WITH text/numeric IGNORE/ACCEPT lists (all operators; values 1, 1.0, 01, 1e0), routes '
+                                     'set_dataset(new df | same df) + write_model, write_csv + write_model(force=True|False), plain write_model; '
+                                     're-read of the written files == in-memory dataset, compared exactly inside Coq'}
     return len(kept)
 
 
@@ -752,7 +878,7 @@ def run(ctx):
     for spec, tags in zip(kept, verdicts):
         st = classify(ctx, spec, tags)
         stats[st] = stats.get(st, 0) + 1
-    ncyc = run_cycles(ctx, 40 if ctx.tier == 'quick' else 500)
+    ncyc = run_cycles(ctx, 90 if ctx.tier == 'quick' else 800)
     nenum = run_enumerations(ctx)
     ctx.coverage['evaluations'] = len(kept) + ncyc + nenum
     distinct = {json.dumps(s, sort_keys=True) for s, i in zip(kept, infos) if i.get('rows', 0) >= 1 and i['ncols'] >= 2}
@@ -786,9 +912,9 @@ def replay(ctx, rep):
     if 'cycle_spec' in rep:
         term, readcase, info = cycle_observe(rep['cycle_spec'], ctx.rundir / 'cycle', 0)
         tags = ctx.run_cases('replay', IMPORTS, 'cycle_case', [term], 'cycle_verdict')[0]
-        excused = (25 not in tags and any(t in CYCLE_GUARDS and CYCLE_GUARDS[t][1] == 'finding' and
-                                          ctx.open_finding(CYCLE_GUARDS[t][2]) for t in tags))
-        tags = [t for t in tags if t in (21, 22, 23, 24, 25)]
+        excused = (not (set(tags) & set(CYCLE_CORR)) and any(t in CYCLE_GUARDS and CYCLE_GUARDS[t][1] == 'finding' and
+                                                              ctx.open_finding(CYCLE_GUARDS[t][2]) for t in tags))
+        tags = [t for t in tags if t in (21, 22, 23, 24, 25, 26, 27, 28)]
         if excused:
             print('explained by an open finding', tags)
             tags = []
